@@ -15,6 +15,7 @@ from lib import *
 
 def run_purefn(ctx, sections, n, oracle_prefixes, profiles=("dev", "release")):
     stats = collections.OrderedDict()
+    n = n * ctx.scale()      # change-directed deepening
     ok, log = cargo_build(ctx, ["purefn"], release=False)
     ok2, log2 = (True, "")
     if "release" in profiles:
